@@ -32,7 +32,16 @@ pub enum Case {
 }
 
 pub fn input_bytes() -> impl Strategy<Value = Vec<u8>> {
-    prop::collection::vec(crate::pick![6 => 0x20u8..0x7F, 1 => Just(b'\n'), 1 => Just(0u8), 2 => 0x80u8..=0xFF, 1 => any::<u8>()], 0..6)
+    let plain = || prop::collection::vec(crate::pick![6 => 0x20u8..0x7F, 1 => Just(b'\n'), 1 => Just(0u8), 2 => 0x80u8..=0xFF, 1 => any::<u8>()], 0..6);
+    // a fifth of the streams begin with (or contain) a sequence that tools tend to treat specially
+    // - a byte order mark, an escape introducer, CR LF, an end-of-input control: each of its bytes
+    // is one read like any other
+    let sig = || prop::sample::select(crate::gen::STREAM_SIGNATURES.to_vec()).prop_map(|s| s.to_vec());
+    crate::pick![
+        8 => plain(),
+        2 => (sig(), plain()).prop_map(|(s, p)| [s, p].concat()),
+        1 => (plain(), sig(), plain()).prop_map(|(a, s, b)| [a, s, b].concat()),
+    ]
 }
 
 /// What the reference run and the image look like for a case.
@@ -464,7 +473,7 @@ impl Prop for C03 {
     }
     fn rule(&self) -> &'static str {
         "Cases: (a) ProgGen structured programs that terminate by construction (ALU/memory blocks, counted loops nested up to 3, forward skips, JSR/JSRR/RET and CALL/RETS subroutines incl. bounded recursion, self-modifying stores, OUT/PUTS/PUTSP/PUTN/REG/GETC/IN, endings: HALT, run off the end, computed jump to 0xFFFF / below the origin / >= 0xFE00, unknown trap, raw 0xD word, HALT in the middle), \
-         run through lace's assembler or encoded by RefAsm and loaded raw; (b) arbitrary word images (uniform, opcode-weighted, near-PC control flow, traps) at origins 0..=0xFDFF (edges forced); input streams with ASCII, NUL, non-ASCII bytes and too few bytes; (c) the real binary with a pseudo-terminal as standard input (the interactive path of GETC / IN): programs that read 2-5 keys and print R0 after each, keys typed one at a time while the program waits - printable ASCII and 2-, 3- and 4-byte characters (each byte of a key is one read, a non-ASCII byte reads as U+FFFD): exit status, output and the number of keys consumed against RefVM; in three arrangements of descriptors - terminal in / pipe out, terminal in and out, and pipe in (holding the keys' bytes) / terminal out with decoy keys waiting in the terminal, none of which may be read. \
+         run through lace's assembler or encoded by RefAsm and loaded raw; (b) arbitrary word images (uniform, opcode-weighted, near-PC control flow, traps) at origins 0..=0xFDFF (edges forced); input streams with ASCII, NUL, non-ASCII bytes and too few bytes, a fifth of them beginning with (or containing) a byte order mark, escape introducer, CR LF or end-of-input control; (c) the real binary with a pseudo-terminal as standard input (the interactive path of GETC / IN): programs that read 2-5 keys and print R0 after each, keys typed one at a time while the program waits - printable ASCII and 2-, 3- and 4-byte characters (each byte of a key is one read, a non-ASCII byte reads as U+FFFD): exit status, output and the number of keys consumed against RefVM; in three arrangements of descriptors - terminal in / pipe out, terminal in and out, and pipe in (holding the keys' bytes) / terminal out with decoy keys waiting in the terminal, none of which may be read. \
          Oracle: RefVM — full snapshot right after load; stop reason and exit status; number of executed instructions; output character for character; input bytes consumed; full final snapshot (registers, PC, CC, 65,536 words); under a fuel of N loop iterations (out of fuel after exactly N instructions is a comparable outcome). \
          Non-trivial: >= 20 instructions executed and at least one of: taken backward branch, subroutine return, store into code that is later executed, trap output, input read, abnormal ending. Distinct = hash(origin, words, input, flag)."
     }
